@@ -656,6 +656,205 @@ def seq_sample(ctx, dirs, k=None, projection="all", driver=None, name="seq"):
     return res
 
 
+# ------------------------------------------------------------------------------------- T1: boot on a given state file
+
+SEQFILE_HEADER = ("From Coq Require Import String Ascii.\nFrom Ldlm Require Import Model.Base Model.Err Model.Seq Model.Track Model.SeqFile.\n" + PRINT_OPTS + """
+(* restated from Extract/SeqExtract.v (that file is compiled by ocaml/seq/build.sh only): the observed history is a run of Mseq
+   from file_state for SOME order of the file's sessions at the first boot *)
+Definition set_boot_order (order : list str) (h : list (event * list out)) : list (event * list out) :=
+  match h with
+  | (ERestart _, o) :: h' => (ERestart order, o) :: h'
+  | _ => h
+  end.
+Definition replay_history_from_any (p : proj) (cfg : config) (f : list (str * list clock)) (h : list (event * list out))
+  : option (nat * list (list out)) :=
+  match replay_history_from p cfg f h with
+  | None => None
+  | Some r =>
+      if (Nat.leb (length f) 4
+          && existsb (fun o => match replay_history_from p cfg f (set_boot_order o h) with None => true | Some _ => false end)
+                     (permutations (map fst f)))%bool
+      then None else Some r
+  end.
+""")
+
+
+def seqfile_term(lines, S):
+    """the `F` line of a history -> (Gallina term of the file's session list, state file configured?) or None when there is none"""
+    fterm, file_on = None, False
+    for line in lines:
+        f = line.split()
+        if f and f[0] == "C" and len(f) == 6:
+            file_on = f[2] == "1"
+        elif f and f[0] == "F" and len(f) >= 2:
+            rest, ents = f[2:], []
+            for _ in range(_int(f[1])):
+                if len(rest) < 2:
+                    raise Untranslatable("F line")
+                sid, m = rest[0], _int(rest[1])
+                cs, rest = _clocks(m, rest[2:], S)
+                ents.append("(%s, %s)" % (S.of_hex(sid), cs))
+            if rest:
+                raise Untranslatable("F line: trailing tokens")
+            fterm = "[%s]" % "; ".join(ents)
+    return fterm, file_on
+
+
+def parse_seqfile_verdict(text):
+    """{hid: dict(R={proj: None|idx}, W=[idx], B=bool)} of the driver's answer on histories with an F line"""
+    res = {}
+    for line in text.splitlines():
+        f = line.split()
+        if len(f) < 3 or f[0] not in ("R", "W", "B", "T", "I"):
+            continue
+        r = res.setdefault(f[1], dict(R={}, W=[], B=False, TI=0))
+        try:
+            if f[0] == "R":
+                r["R"][f[2]] = None if f[3] == "ok" else int(f[4])
+            elif f[0] == "W":
+                r["W"].append(int(f[2]))
+            elif f[0] == "B":
+                r["B"] = True
+            else:
+                r["TI"] += 1           # the driver must not run the hold tracker on these histories
+        except (ValueError, IndexError):
+            r["B"] = True
+    return res
+
+
+def seqfile_sample(ctx, dirs, k=None, projection="all", driver=None, name="seqfile"):
+    """T1 "boot on a given state file" (seqtie.initfile_stage). dirs: directories judged by seqtie.judge. For a sample of the
+    histories (and one falsified copy of each): replay_history_from_any under proj_all and the property's projection, and
+    views_failures, evaluated by vm_compute  vs  the R / W lines of the extracted driver."""
+    k = _tier_k(ctx, "seq", k)
+    res = dict(sampled=0, compared=0, disagreements=[], skipped=None, coqc_s=0.0, histories=0, mutants=0, untranslatable=0,
+               verdicts_not_ok_in_sample=0, projection=projection)
+    why = models_built(["Model/Base.v", "Model/Err.v", "Model/Seq.v", "Model/Track.v", "Model/SeqFile.v"])
+    if why:
+        res["skipped"] = why
+        return res
+    traces = read_traces(dirs)
+    traces = {h: v for h, v in traces.items() if any(l.startswith("F ") for l in v[1][:4])}
+
+    def n_entries(lines):
+        # (tokens of the F line - 2 - 2 per session) / 3; restored holds whose leases end together cost k! candidate states in replay
+        for l in lines[:4]:
+            f = l.split()
+            if f and f[0] == "F" and len(f) >= 2:
+                try:
+                    return (len(f) - 2 - 2 * int(f[1])) // 3
+                except ValueError:
+                    return 99
+        return 99
+    traces = {h: v for h, v in traces.items() if n_entries(v[1]) <= 5}
+    verdict = {}
+    for d in set(str(v[0]) for v in traces.values()):
+        try:
+            verdict.update(parse_seqfile_verdict((Path(d) / "verdict.txt").read_text()))
+        except OSError:
+            pass
+    hids = sorted(h for h in traces if h in verdict and not verdict[h]["B"] and "all" in verdict[h]["R"] and len(traces[h][1]) <= 1500)
+    if not hids:
+        res["skipped"] = "no judged history to sample"
+        return res
+    rng = random.Random("%d/coqeval/%s/%s" % (int(ctx.seed), name, ctx.prop))
+    odd = [h for h in hids if verdict[h]["R"].get("all") is not None or verdict[h]["W"]]
+    rng.shuffle(odd)
+    chosen = odd[:max(1, k // 4)]
+    rest = [h for h in hids if h not in chosen]
+    rng.shuffle(rest)
+    chosen = (chosen + rest)[:k]
+    work = _workdir(ctx, name)
+    E = Errs()
+    proj = projection if projection in SEQ_PROJ else "all"
+    projs = ["all"] + ([proj] if proj != "all" else [])
+    cases, mut_lines, muts = [], [], []
+    for h in chosen:
+        cases.append(dict(id=h, lines=traces[h][1], want=verdict[h], origin=str(traces[h][0] / "trace.txt")))
+    drv = Path(driver) if driver else VERIF / "ocaml" / "seq" / "seqdriver"
+    for h in chosen:
+        m = mutate_history(traces[h][1], rng, E)
+        if m:
+            mid = h + "~m"
+            muts.append(dict(id=mid, lines=m[0], mutation=m[1], origin=str(traces[h][0] / "trace.txt")))
+            mut_lines += ["H " + mid] + m[0] + ["X"]
+    if muts and drv.exists():
+        mf = work / "mutants.txt"
+        mf.write_text("\n".join(mut_lines) + "\n")
+        rc, out = sh([str(drv), str(mf)] + projs, cwd=work, timeout=300)
+        (work / "mutants.verdict.txt").write_text(out)
+        mv = parse_seqfile_verdict(out)
+        for m in muts:
+            if rc == 0 and m["id"] in mv and not mv[m["id"]]["B"] and "all" in mv[m["id"]]["R"]:
+                m["want"] = mv[m["id"]]
+                cases.append(m)
+    files, groups = [], []
+    for base in range(0, len(cases), SHARD):
+        grp, body, S = [], [], Strs()
+        for c in cases[base:base + SHARD]:
+            try:
+                cfg, h, nev = seq_history_terms(c["lines"], S, E)
+                fterm, file_on = seqfile_term(c["lines"], S)
+                if fterm is None:
+                    raise Untranslatable("no F line")
+            except Untranslatable as ex:
+                res["untranslatable"] += 1
+                c["untranslatable"] = str(ex)
+                continue
+            i = len(grp)
+            pr = "Proj " + " ".join("true" if b else "false" for b in SEQ_PROJ[proj])
+            body.append("Definition cfg%d : config := %s.\nDefinition f%d : list (str * list clock) := %s.\nDefinition h%d : list (event * list out) :=\n  %s.\n"
+                        "Eval vm_compute in (%d%%nat, option_map fst (replay_history_from_any proj_all cfg%d f%d h%d), "
+                        "option_map fst (replay_history_from_any (%s) cfg%d f%d h%d),\n  views_failures %s 0%%nat h%d).\n"
+                        % (i, cfg, i, fterm, i, h, i, i, i, i, pr, i, i, i, "true" if file_on else "false", i))
+            c["events"] = nev
+            grp.append(c)
+        if not grp:
+            continue
+        f = work / ("cases%d.v" % len(files))
+        f.write_text(SEQFILE_HEADER + "\n".join(S.defs) + "\n" + "\n".join(body))
+        files.append(f)
+        groups.append(grp)
+    if not files:
+        res["skipped"] = "no sampled history could be translated (%d untranslatable)" % res["untranslatable"]
+        return res
+    res["cases_file"] = str(files[0])
+    outs, secs = run_coqc(ctx, files)
+    res["coqc_s"] = round(secs, 2)
+    for f, grp, (rc, out) in zip(files, groups, outs):
+        (f.with_suffix(".out")).write_text(out)
+        terms = split_evals(out)
+        if rc != 0 or len(terms) != len(grp):
+            res["skipped"] = "coqc on %s failed (rc %s, %d of %d results): %s" % (f.name, rc, len(terms), len(grp), out[-400:])
+            continue
+        for c, t in zip(grp, terms):
+            try:
+                idx, r_all, r_proj, vf = parse_term(t)
+            except Exception as ex:  # noqa
+                res["skipped"] = "unreadable Coq output for %s: %r" % (c["id"], ex)
+                continue
+            w = c["want"]
+            res["sampled"] += 1
+            if "mutation" in c:
+                res["mutants"] += 1
+            else:
+                res["histories"] += 1
+            coq = {"replay-from-file all": None if r_all is None else r_all.v, "views_failures": list(vf), "tracker lines printed": 0}
+            drvv = {"replay-from-file all": w["R"].get("all"), "views_failures": list(w["W"]), "tracker lines printed": w.get("TI", 0)}
+            if proj != "all" and proj in w["R"]:
+                coq["replay-from-file " + proj] = None if r_proj is None else r_proj.v
+                drvv["replay-from-file " + proj] = w["R"][proj]
+            if any(v is not None for kk, v in drvv.items() if kk.startswith("replay")) or drvv["views_failures"]:
+                res["verdicts_not_ok_in_sample"] += 1
+            for key in coq:
+                res["compared"] += 1
+                if coq[key] != drvv[key]:
+                    res["disagreements"].append({"trace": "history %s of %s" % (c["id"], c["origin"]), "what": key, "coq_vm_compute": _show(coq[key]),
+                                                 "extracted_driver": _show(drvv[key]), "mutation": c.get("mutation"), "events": c.get("events"),
+                                                 "cases_file": str(f)})
+    return res
+
+
 def _show(v):
     if v is None:
         return "ok"
